@@ -59,6 +59,7 @@ type Contract struct {
 	Thread      bool
 	Props       map[string]bool
 	Flags       []string
+	Fresh       []string          // result names that are newly allocated objects nobody else references
 	GhostSets   []GhostSet        // ghost assignments executed at every exit of the function
 	Conforms    []string          // named specs this (anonymous) function is declared to satisfy
 	MaybeSpecs  map[string]string // func-typed params whose spec applies only if the argument conforms
@@ -494,6 +495,11 @@ func (db *SpecDB) LoadFile(file string, pkgPath string) error {
 			if cur != nil {
 				cur.Flags = append(cur.Flags, fields[1:]...)
 			}
+		case "fresh":
+			if cur == nil {
+				return fmt.Errorf("%s:%d: fresh outside a contract", file, ln)
+			}
+			cur.Fresh = append(cur.Fresh, fields[1:]...)
 		case "ghostset":
 			// ghostset g[k] := e
 			if cur == nil {
